@@ -763,6 +763,29 @@ func init() {
 			}
 			var obs []Obligation
 			ord := &ordinal{}
+			// a list built INSIDE a return statement (`return quoteTimes(SExpr(cells), n)`) never gets a
+			// position at all: no statement can follow the construction
+			sexprF, qexprF := c.LookupPkgFunc("lisp.SExpr"), c.LookupPkgFunc("lisp.QExpr")
+			ast.Inspect(fd.Body, func(n ast.Node) bool {
+				rs, ok := n.(*ast.ReturnStmt)
+				if !ok || len(rs.Results) != 1 {
+					return true
+				}
+				e := ast.Unparen(rs.Results[0])
+				for k := 0; k < 3; k++ {
+					ce, ok := e.(*ast.CallExpr)
+					if !ok || len(ce.Args) < 1 || !quoteLike(originOf(Callee(info, ce))) {
+						break
+					}
+					e = ast.Unparen(ce.Args[0])
+				}
+				if ce, ok := e.(*ast.CallExpr); ok {
+					if f := originOf(Callee(info, ce)); f != nil && (f == sexprF || f == qexprF) {
+						obs = append(obs, mkOb(c, rid, u, ord.next("list built in a return statement"), rs, Violated, "the rebuilt template form is constructed inside the return statement and so never receives the template node's position: the expansion stamp assigns it the macro call site, and an error inside the form — and the innermost frame of its trace — points at the macro call instead of at the template", true))
+					}
+				}
+				return true
+			})
 			for _, b := range fc.G.Blocks {
 				if !fc.Live(b) {
 					continue
